@@ -67,8 +67,9 @@ func (g *gen) walKey(big bool) []byte {
 }
 
 func genWal(g *gen, n int, tier string, w *bufio.Writer) {
+	c0 := g.intn(1 << 20) // phase of the case kinds: generation is chunked, every chunk must reach every kind
 	for c := 0; c < n; c++ {
-		big := c%5 == 0 // every 5th case may contain multi-fragment entries
+		big := (c+c0)%5 == 0 // every 5th case may contain multi-fragment entries
 		fmt.Fprintf(w, "# case %d\n", c)
 		fmt.Fprintln(w, "new")
 		steps := 3 + g.intn(25)
